@@ -285,3 +285,164 @@ Proof.
 Qed.
 Example units_without_table_misses : units_table_ok [] = false.
 Proof. vm_compute. reflexivity. Qed.
+
+(* ------------------------------------------------------------------------------------------------------------ *)
+(** * soundex: sqlframe.base.util.soundex (pure Python, registered as the UDF SOUNDEX on DuckDB) against Spark's
+      UTF8String.soundex.  Strings are lists of code points; the theorem is about ASCII strings that start with a letter
+      (for any other first character Spark returns its input unchanged, which the Python function does not do). *)
+Close Scope string_scope.
+Open Scope Z_scope.
+
+Inductive sxclass := SxCoded (code : Z) | SxTransparent | SxReset.
+Definition oz_is (o : option Z) (k : Z) : bool := match o with Some x => x =? k | None => false end.
+(** the loop both implementations run over the characters after the first: a coded letter is appended unless it repeats the
+    last code; a transparent letter leaves the last code alone; anything else forgets it; stop at four characters *)
+Fixpoint sx_loop (cl : Z -> sxclass) (rest : list Z) (last : option Z) (count : nat) (acc : list Z) : list Z :=
+  match rest with
+  | [] => acc
+  | c :: r =>
+      match cl c with
+      | SxCoded sub =>
+          if oz_is last sub then sx_loop cl r (Some sub) count acc
+          else if Nat.eqb (S count) 4 then acc ++ [sub] else sx_loop cl r (Some sub) (S count) (acc ++ [sub])
+      | SxTransparent => sx_loop cl r last count acc
+      | SxReset => sx_loop cl r None count acc
+      end
+  end.
+Definition sx_pad (l : list Z) : list Z := l ++ repeat 48 (4 - List.length l).
+Definition ascii_upper (c : Z) : Z := if (97 <=? c) && (c <=? 122) then c - 32 else c.
+Definition is_upper_letter (c : Z) : bool := (65 <=? c) && (c <=? 90).
+
+(** ---- sqlframe's function, parametrised by what the source decides: the replacement table and the letters that are
+         skipped without forgetting the last code ---- *)
+Record soundex_cfg := mkSoundex { sx_table : list (list Z * Z); sx_transparent : list Z }.
+Fixpoint sx_code_of (t : list (list Z * Z)) (c : Z) : option Z :=
+  match t with [] => None | (letters, code) :: r => if existsb (Z.eqb c) letters then Some code else sx_code_of r c end.
+Definition sx_classify_duck (cfg : soundex_cfg) (c : Z) : sxclass :=
+  match sx_code_of (sx_table cfg) c with
+  | Some code => SxCoded code
+  | None => if existsb (Z.eqb c) (sx_transparent cfg) then SxTransparent else SxReset
+  end.
+Definition duck_soundex (cfg : soundex_cfg) (s : list Z) : list Z :=
+  match map ascii_upper s with
+  | [] => []
+  | f :: rest => sx_pad (sx_loop (sx_classify_duck cfg) rest (sx_code_of (sx_table cfg) f) 1 [f])
+  end.
+
+(** ---- Spark (UTF8String.soundex, US_ENGLISH_MAPPING): code '0' for A E I O U Y, '7' for H W ---- *)
+Definition spark_mapping (u : Z) : Z :=      (* u an upper-case letter; the digit character of its code *)
+  nth (Z.to_nat (u - 65)) [48; 49; 50; 51; 48; 49; 50; 55; 48; 50; 50; 52; 53; 53; 48; 49; 50; 54; 50; 51; 48; 49; 55; 50; 48; 50] 48.
+Definition sx_classify_spark (c : Z) : sxclass :=
+  let u := ascii_upper c in
+  if is_upper_letter u then
+    (if spark_mapping u =? 55 then SxTransparent else if spark_mapping u =? 48 then SxReset else SxCoded (spark_mapping u))
+  else SxReset.
+Definition spark_soundex (s : list Z) : list Z :=
+  match s with
+  | [] => []
+  | b :: rest =>
+      let u := ascii_upper b in
+      if is_upper_letter u
+      then sx_pad (sx_loop sx_classify_spark rest (if spark_mapping u =? 48 then None else Some (spark_mapping u)) 1 [u])
+      else s
+  end.
+
+Definition soundex_std : soundex_cfg :=
+  mkSoundex [([66; 70; 80; 86], 49); ([67; 71; 74; 75; 81; 83; 88; 90], 50); ([68; 84], 51); ([76], 52); ([77; 78], 53); ([82], 54)]
+            [72; 87].
+Fixpoint lz_eqb (a b : list Z) : bool :=
+  match a, b with [], [] => true | x :: a', y :: b' => (x =? y) && lz_eqb a' b' | _, _ => false end.
+Lemma lz_eqb_eq : forall a b, lz_eqb a b = true -> a = b.
+Proof. induction a as [|x a IH]; destruct b as [|y b]; simpl; intro H; try discriminate; [reflexivity|].
+       apply andb_prop in H as [H1 H2]. f_equal; [lia | apply IH; exact H2]. Qed.
+Fixpoint tbl_eqb (a b : list (list Z * Z)) : bool :=
+  match a, b with
+  | [], [] => true
+  | (l1, c1) :: a', (l2, c2) :: b' => lz_eqb l1 l2 && (c1 =? c2) && tbl_eqb a' b'
+  | _, _ => false
+  end.
+Lemma tbl_eqb_eq : forall a b, tbl_eqb a b = true -> a = b.
+Proof.
+  induction a as [|[l1 c1] a IH]; destruct b as [|[l2 c2] b]; simpl; intro H; try discriminate; [reflexivity|].
+  apply andb_prop in H as [H H3]. apply andb_prop in H as [H1 H2]. apply lz_eqb_eq in H1.
+  f_equal; [f_equal; [exact H1 | lia] | apply IH; exact H3].
+Qed.
+Definition soundex_cfg_ok (c : soundex_cfg) : bool :=
+  tbl_eqb (sx_table c) (sx_table soundex_std) && lz_eqb (sx_transparent c) (sx_transparent soundex_std).
+
+(** the two classifications agree on every character (the Python side sees the upper-cased character) *)
+Definition letters52 : list Z := map Z.of_nat (seq 65 26 ++ seq 97 26).
+Definition sxclass_eqb (a b : sxclass) : bool :=
+  match a, b with SxCoded x, SxCoded y => x =? y | SxTransparent, SxTransparent | SxReset, SxReset => true | _, _ => false end.
+Lemma classify_sweep : forallb (fun c => sxclass_eqb (sx_classify_duck soundex_std (ascii_upper c)) (sx_classify_spark c)) letters52 = true.
+Proof. vm_compute. reflexivity. Qed.
+Lemma sxclass_eqb_eq : forall a b, sxclass_eqb a b = true -> a = b.
+Proof. destruct a, b; simpl; intro H; try discriminate; try reflexivity. f_equal. lia. Qed.
+
+Lemma classify_agree : forall c, sx_classify_duck soundex_std (ascii_upper c) = sx_classify_spark c.
+Proof.
+  intro c.
+  destruct ((65 <=? c) && (c <=? 90) || (97 <=? c) && (c <=? 122)) eqn:L.
+  - apply sxclass_eqb_eq.
+    assert (Hin : In c letters52).
+    { unfold letters52. replace c with (Z.of_nat (Z.to_nat c)) by lia. apply in_map. apply in_or_app.
+      destruct ((65 <=? c) && (c <=? 90)) eqn:U; [left | right]; apply in_seq; lia. }
+    exact (proj1 (forallb_forall _ _) classify_sweep c Hin).
+  - (* not a letter: both forget the last code *)
+    assert (Hu : ascii_upper c = c) by (unfold ascii_upper; destruct ((97 <=? c) && (c <=? 122)) eqn:E; [lia | reflexivity]).
+    unfold sx_classify_spark. rewrite Hu. unfold is_upper_letter.
+    destruct ((65 <=? c) && (c <=? 90)) eqn:E; [lia|].
+    unfold sx_classify_duck, soundex_std; cbn [sx_table sx_transparent sx_code_of existsb].
+    repeat match goal with |- context [c =? ?k] => let Ek := fresh "Ek" in destruct (c =? k) eqn:Ek; [lia|]; clear Ek end.
+    reflexivity.
+Qed.
+
+Lemma sx_loop_ext : forall cl1 cl2 f, (forall c, cl1 (f c) = cl2 c) ->
+  forall rest last count acc, sx_loop cl1 (map f rest) last count acc = sx_loop cl2 rest last count acc.
+Proof.
+  intros cl1 cl2 f H. induction rest as [|c r IH]; intros last count acc; [reflexivity|].
+  cbn [map sx_loop]. rewrite H. destruct (cl2 c) as [sub| |]; try apply IH.
+  destruct (oz_is last sub); [apply IH|]. destruct (Nat.eqb (S count) 4); [reflexivity | apply IH].
+Qed.
+
+(** a remembered code 7 (Spark's H / W as FIRST letter) behaves like no remembered code: no letter is coded 7 *)
+Lemma sx_loop_last7 : forall rest count acc,
+  sx_loop sx_classify_spark rest (Some 55) count acc = sx_loop sx_classify_spark rest None count acc.
+Proof.
+  induction rest as [|c r IH]; intros count acc; [reflexivity|]. cbn [sx_loop].
+  destruct (sx_classify_spark c) as [sub| |] eqn:E; [|apply IH|reflexivity].
+  assert (sub <> 55).
+  { unfold sx_classify_spark in E. destruct (is_upper_letter (ascii_upper c)); [|discriminate].
+    destruct (spark_mapping (ascii_upper c) =? 55) eqn:E7; [discriminate|].
+    destruct (spark_mapping (ascii_upper c) =? 48); [discriminate|]. injection E as <-. lia. }
+  unfold oz_is. destruct (55 =? sub) eqn:E2; [lia | reflexivity].
+Qed.
+
+Definition starts_with_letter (s : list Z) : bool :=
+  match s with [] => true | b :: _ => is_upper_letter (ascii_upper b) end.
+
+Theorem soundex_ok : forall cfg, soundex_cfg_ok cfg = true ->
+  forall s, starts_with_letter s = true -> duck_soundex cfg s = spark_soundex s.
+Proof.
+  intros [t tr] H s Hs. unfold soundex_cfg_ok in H; simpl in H. apply andb_prop in H as [H1 H2].
+  apply tbl_eqb_eq in H1. apply lz_eqb_eq in H2. subst t tr. fold soundex_std.
+  destruct s as [|b rest]; [reflexivity|]. simpl in Hs.
+  unfold duck_soundex, spark_soundex. cbn [map]. rewrite Hs. f_equal.
+  rewrite (sx_loop_ext (sx_classify_duck soundex_std) sx_classify_spark ascii_upper classify_agree).
+  (* the code remembered for the first letter *)
+  pose proof (classify_agree b) as Hb. unfold sx_classify_duck, sx_classify_spark in Hb. rewrite Hs in Hb.
+  destruct (sx_code_of (sx_table soundex_std) (ascii_upper b)) as [code|] eqn:Ec.
+  - destruct (spark_mapping (ascii_upper b) =? 55); [discriminate|].
+    destruct (spark_mapping (ascii_upper b) =? 48); [discriminate|]. injection Hb as ->. reflexivity.
+  - destruct (spark_mapping (ascii_upper b) =? 55) eqn:E7.
+    + assert (spark_mapping (ascii_upper b) = 55) by lia.
+      destruct (spark_mapping (ascii_upper b) =? 48) eqn:E0; [lia|]. rewrite H. symmetry. apply sx_loop_last7.
+    + destruct (spark_mapping (ascii_upper b) =? 48); [reflexivity|].
+      destruct (existsb (Z.eqb (ascii_upper b)) (sx_transparent soundex_std)); discriminate.
+Qed.
+
+(** without the H / W rule (transparent = []) Ashcraft is coded A226 instead of A261 *)
+Theorem soundex_without_hw_rule :
+  duck_soundex (mkSoundex (sx_table soundex_std) []) [65; 115; 104; 99; 114; 97; 102; 116] = [65; 50; 50; 54]
+  /\ spark_soundex [65; 115; 104; 99; 114; 97; 102; 116] = [65; 50; 54; 49].
+Proof. split; vm_compute; reflexivity. Qed.
